@@ -275,6 +275,9 @@ def m_str_clear(ctx, args, callee):
 
 
 def str_concat(ctx, a, b):
+    if isinstance(a, SpecialStr) or isinstance(b, SpecialStr):
+        from .models_fmt import concat_any
+        return concat_any(ctx, a, b)
     if a.term is not None or b.term is not None:
         return Str(term=z3.Concat(a.z3term(), b.z3term()))
     if a.tab is not None and b.tab is not None and not a.var.eq(b.var):
